@@ -52,6 +52,12 @@ impl LogDest {
     pub fn new() -> Self {
         LogDest(Rc::new(RefCell::new(DestState::default())))
     }
+    /// a destination that already holds `n` bytes of other content (a reused buffer)
+    pub fn prefilled(n: usize) -> Self {
+        let d = LogDest::new();
+        d.0.borrow_mut().bytes = (0..n).map(|i| (i % 253) as u8 | 1).collect();
+        d
+    }
     pub fn bytes(&self) -> Vec<u8> {
         self.0.borrow().bytes.clone()
     }
